@@ -13,7 +13,7 @@ META = {
             "bounded; P6 every other panic-capable construct reachable from parse_module in crate syntax is "
             "discharged by a rule or reviewed with its guard signature, and the lexer callback advances logos by "
             "a byte length; P7 every opened mark is finished exactly once; M the seven leaf primitives have the "
-            "modelled shape. One obligation per site; non-trivial = decided by the abstract interpreter.",
+            "modelled shape. One obligation per site; non-trivial = decided by the abstract interpreter. P6's roots include the hand-written callbacks of the logos-generated lexer.",
     "explanation": "Engine P interprets the MIR of every function of syntax::parser on a nondeterministic token "
                    "oracle (the current token is one of the 66 kinds the lexer can deliver or EOF; it is refined "
                    "by every test the parser makes and forgotten at every consumption; look-ahead beyond the "
@@ -166,7 +166,9 @@ def p6_inventory(F, res, R):
     reviewed = RP.load_reviewed().get("C10", {})
     from lib.inventory import Inventory
     INV = Inventory(F, reviewed, "Q1/")
-    seen = F.reachable_from([ROOT])
+    cbs = PM.lexer_callbacks(F)
+    res.floor("lexer callbacks (entered through logos, named as roots)", len(cbs), 1)
+    seen = F.reachable_from([ROOT] + cbs)
     n = 0
     for p_ in sorted(seen):
         if not p_.startswith(("syntax::", "<syntax::")):
